@@ -40,14 +40,12 @@ Definition dir_eq_files_no_shadow : Prop :=
     find_sources_in_dir o t d = Ok l_dir -> Permutation fs (py_files t d) -> crawl_each o t fs = Ok l_files ->
     Permutation l_dir l_files \/ ~ NoDup (map s_mod l_files).
 
-(* ... and `-p pkg` from the directory holding pkg yields the same files as the directory (namespace directories,
-   which the walk lists with a directory path, apart).  Strongest form believed TRUE: valid names, no module file beside
-   a same-named directory, every source of the directory rooted at cwd.  NOT PROVED in full.  Proved towards it
-   (Properties.v): package_walk_unfold (the `seen` bookkeeping never loses a module: one level of the walk is exactly
-   "the found module + the walks of all eligible children", whatever the listing order), package_walk_sound (every entry
-   is what find_module returns for its module name), and dir_eq_package_needs_no_shadow (without `no_shadow` it is false:
-   the second finding).  Evaluated by the extracted model on every eligible enumerated case each run (0 counterexamples)
-   and compared on real command lines (S2). *)
+(* ... and `-p pkg` from the directory holding pkg yields exactly the (module, path) set of the directory walk (the
+   namespace directories, which the package walk lists with a directory path, apart): for every tree with valid names and
+   without a module file beside a same-named directory, every option combination (classic, namespace packages, explicit
+   bases) and depth, provided every source of the directory is rooted at cwd (then no two of them share a module name, so
+   the duplicate check cannot fire).  PROVED: Properties.dir_eq_package.  Without no_shadow it is false:
+   Properties.dir_eq_package_needs_no_shadow (the second finding). *)
 Definition dir_eq_package : Prop :=
   forall o t base p l_dir l_pkg, wf_node (Dir t) = true -> valid_names t = true -> no_shadow t = true ->
     cwd o = base -> mypy_path o = [] ->
